@@ -440,6 +440,27 @@ theorem C04_fallback_on_error_code :
   simp only [getApiVersion, fetchApiVersions, apiVersionAttempts, fetchLoop, hd, handleApiVersionUpdate]
   rfl
 
+/-- **The public `fetch_api_versions()` forgets a successful discovery** (observation, modelled as
+    written): called in any state but the undiscovered one it performs no request, returns
+    `ApiVersionResponse(-1, [])` and leaves the client in the fallback state for good; from the
+    undiscovered state it leaves the state the discovery loop computes.  Afterwards every produce and
+    fetch request carries version 0 (and the producer writes format 0, `C04_fallback_zero`), and the
+    reply is decoded with the version-0 decoder: the requests still conform, the broker's newer
+    versions are no longer used. -/
+theorem C04_refetch_forgets_table :
+    (∀ t attempts, fetchApiVersionsCall (.table t) attempts = some (.ok (.legacy, -1, [])))
+    ∧ (∀ attempts, fetchApiVersionsCall .legacy attempts = some (.ok (.legacy, -1, [])))
+    ∧ (∀ attempts, (fetchApiVersionsCall .undiscovered attempts).map (fun r => r.map (·.1)) = fetchApiVersions attempts)
+    ∧ (∀ attempts acks, sendProduceVersions .legacy attempts acks
+        = some (.ok (.legacy, 0, if acks = 0 then none else some 0)))
+    ∧ (∀ attempts, sendFetchVersions .legacy attempts = some (.ok (.legacy, 0, 0))) := by
+  refine ⟨?_, ?_, ?_, ?_, ?_⟩
+  · intro t attempts; rfl
+  · intro attempts; rfl
+  · intro attempts; exact fetchLoopCall_state _ attempts
+  · intro attempts acks; rfl
+  · intro attempts; rfl
+
 /-! ## the glue of `KafkaClient.send_produce_request` / `send_fetch_request` -/
 
 /-- **The decoder applied to the reply is the decoder for the version written in the request header**,
@@ -571,16 +592,16 @@ theorem C04_list_offsets_total : C04_list_offsets_total_stmt := by
   exact conforms_ok_of_enc _ _ _ hvalid (listOffsets_bytes h hk)
 
 theorem C04_offset_fetch_total : C04_offset_fetch_total_stmt := by
-  intro cid g corr ps l hk hnd hvalid hg hascii
-  obtain ⟨frame, h⟩ := offsetFetch_total hk hnd hvalid hg hascii
+  intro cid g corr ps l hk hnd hvalid hascii
+  obtain ⟨frame, h⟩ := offsetFetch_total hk hnd hvalid hascii
   refine ⟨frame, h, ?_⟩
   unfold Monitor.C04.offsetFetch
   simp only [hk]
   exact conforms_ok_of_enc _ _ _ hvalid (offsetFetch_bytes h hk)
 
 theorem C04_offset_commit_total : C04_offset_commit_total_stmt := by
-  intro cid g c corr gen ps l hk hnd hvalid hg hc hascii
-  obtain ⟨frame, h⟩ := offsetCommit_total hk hnd hvalid hg hc hascii
+  intro cid g c corr gen ps l hk hnd hvalid hascii
+  obtain ⟨frame, h⟩ := offsetCommit_total hk hnd hvalid hascii
   refine ⟨frame, h, ?_⟩
   unfold Monitor.C04.offsetCommit
   simp only [hk]
@@ -596,8 +617,8 @@ theorem C04_metadata_total : C04_metadata_total_stmt := by
 
 theorem C04_group_requests_total : C04_group_requests_total_stmt := by
   refine ⟨?_, ?_, ?_, ?_⟩
-  · intro cid g corr hvalid hg
-    obtain ⟨frame, h⟩ := findCoordinator_total hvalid hg
+  · intro cid g corr hvalid
+    obtain ⟨frame, h⟩ := findCoordinator_total hvalid
     refine ⟨frame, h, ?_⟩
     unfold Monitor.C04.findCoordinator
     simp only [Option.map_some]
@@ -683,14 +704,14 @@ theorem C04_must_encode : C04_must_encode_stmt := by
     split at h
     · rename_i g' l hk
       simp only [Bool.and_eq_true, decide_eq_true_eq] at h
-      exact C04_offset_fetch_total cid g' corr ps l hk h.1.1.1 h.1.1.2 h.1.2 (asciiTopics_mem h.2)
+      exact C04_offset_fetch_total cid g' corr ps l hk h.1.1 h.1.2 (asciiTopics_mem h.2)
     · cases h
   · intro cid corr g gen c ps h
     unfold mustOffsetCommit at h
     split at h
     · rename_i g' c' l hk
       simp only [Bool.and_eq_true, decide_eq_true_eq] at h
-      exact C04_offset_commit_total cid g' c' corr gen ps l hk h.1.1.1.1 h.1.1.1.2 h.1.1.2 h.1.2 (asciiTopics_mem h.2)
+      exact C04_offset_commit_total cid g' c' corr gen ps l hk h.1.1 h.1.2 (asciiTopics_mem h.2)
     · cases h
   · intro cid corr topics h
     unfold mustMetadata at h
@@ -703,8 +724,7 @@ theorem C04_must_encode : C04_must_encode_stmt := by
     unfold mustFindCoordinator at h
     split at h
     · rename_i g'
-      simp only [Bool.and_eq_true] at h
-      exact C04_group_requests_total.1 cid g' corr h.1 h.2
+      exact C04_group_requests_total.1 cid g' corr h
     · cases h
   · intro cid corr p h
     unfold mustJoinGroup at h
@@ -782,6 +802,7 @@ C04_fallback_on_error_code
 C04_glue_produce
 C04_glue_fetch
 C04_discovery_outcomes
+C04_refetch_forgets_table
 C04_guard_exact
 C04_duplicate_refused
 C04_produce_total
